@@ -98,26 +98,114 @@ def run(tier):
             if nfail <= 3:
                 ctx.violation({"layer": "sched", "cases": [c], "implementation_answer": io[k][:2000], "expected": expect[k][:2000], "model_answer": mo[k][:2000],
                                "why": "the real DfsScheduler did not execute exactly the root-to-leaf choice sequences of the tree, each once, in order (or did not stop)"})
-    # DFS through the real runtime on programs: model engine + model DFS vs Runner + DfsScheduler
+    # DFS through the real runtime on programs: model engine + model DFS vs Runner + DfsScheduler.
+    # Each program is first enumerated without bound (on the model) to learn its longest schedule L and its number
+    # of schedules; it is then run under every ContinueAfter bound 1..L+1, FailAfter bounds around L, and
+    # iteration bounds around the number of schedules.
+    progs = []
+    for k in range(70 if tier == "quick" else 600):
+        shape = rng.random()
+        if shape < 0.5:
+            # main spawns two short children: the shape whose tree has the most irregular branching
+            feats = ("yield", "atomic", "park")
+            objs, bodies = gen_prog.gen_program(rng, max_bodies=1, max_ops=2, features=feats)
+            objl = objs.split(",")
+            kids = []
+            for _ in range(2):
+                _, b = gen_prog.gen_program(rng, max_bodies=1, max_ops=rng.choice([1, 2, 3]), features=("yield", "atomic", "park"))
+                kids.append(b)
+            main = "sp1;sp2" + (";" + bodies if bodies != "-" else "") + rng.choice(["", ";jn0", ";jn0;jn1", ";jn1"])
+            bodies = main + "|" + "|".join(kids)
+            # object indices used by the children must exist: children only use atomics a0..a(n-1) generated with their own object lists; normalise to a single atomic
+            import re
+            bodies = re.sub(r"a\d+\.", "a0.", bodies)
+            objs = ",".join(objl)
+        else:
+            objs, bodies = gen_prog.gen_program(rng, max_bodies=3, max_ops=rng.choice([2, 3, 4]), features=("spawn", "spawn", "join", "yield", "park", "atomic", "mutex"))
+        progs.append((objs, bodies))
+    base = ["progdfs none - 0 %s %s" % pb for pb in progs]
+    bmo = ctx.run_model("prog", base)
     pcases = []
-    for k in range(300 if tier == "quick" else 3000):
-        objs, bodies = gen_prog.gen_program(rng, max_bodies=3, max_ops=rng.choice([2, 3, 4]), features=("spawn", "spawn", "join", "yield", "park", "atomic", "reset"))
-        ms = rng.choice(["none", "none", "none", "cont:%d" % rng.randint(1, 9), "fail:%d" % rng.randint(4, 14)])
-        pcases.append("progdfs %s %s %s %s" % (ms, rng.choice(["-", "-", "-", "1", "3", "10"]), objs, bodies))
+    for (objs, bodies), line in zip(progs, bmo):
+        scheds = [x.split(":R=")[0].split("S=")[1] for x in line.split(" | ") if "S=" in x]
+        if not scheds:
+            continue
+        L = max(len([t for t in s_.split(",") if t]) for s_ in scheds)
+        nsch = len(scheds)
+        pcases.append("progdfs none - 0 %s %s" % (objs, bodies))
+        if nsch > 400:
+            continue
+        for n in range(1, min(L, 14) + 2):
+            pcases.append("progdfs cont:%d - 0 %s %s" % (n, objs, bodies))
+        for n in (L - 1, L, L + 1):
+            if n >= 1:
+                pcases.append("progdfs fail:%d - 0 %s %s" % (n, objs, bodies))
+        for mi in sorted(set([0, 1, 2, nsch - 1, nsch, nsch + 1])):
+            if mi >= 0:
+                pcases.append("progdfs none %d 0 %s %s" % (mi, objs, bodies))
+    # random data under DFS: every execution must see the same fixed stream, also past 64 draws
+    for k in range(12 if tier == "quick" else 80):
+        nd = rng.choice([1, 3, 10, 63, 64, 65, 66, 70, 130])
+        second = rng.choice(["rn;a0.add.1", "a0.add.1;rn;rn", "yd;rn"])
+        pcases.append("progdfs none %s 1 a0 sp1;%s;jn0|%s" % (rng.choice(["-", "3", "5"]), ";".join(["rn"] * nd), second))
+        pcases.append("progdfs none 4 1 a0 sp1;%s|%s" % (second, ";".join(["rn"] * nd)))
     pmo, pio, pmism = ctx.differential("prog", pcases)
-    ctx.log("check_dfs on programs: %d cases, %d model/impl mismatches" % (len(pcases), len(pmism)))
+    ctx.log("check_dfs on programs: %d cases (%d programs x bounds), %d model/impl mismatches" % (len(pcases), len(progs), len(pmism)))
+    unb = {}
     for k, c in enumerate(pcases):
         line = pio[k]
-        scheds = [x.split(":T=")[0] for x in line.split(" | ")] if " " in line else []
-        scheds = [s.split("S=")[1] for s in scheds if "S=" in s]
+        w = c.split(" ")
+        items = [x for x in line.split(" | ") if "S=" in x]
+        scheds = [x.split(":R=")[0].split("S=")[1] for x in items]
+        draws = [x.split(":R=")[1].split(":T=")[0] for x in items]
         n = len(scheds)
         ctx.dist("progdfs.iters=1" if n <= 1 else "progdfs.iters<=10" if n <= 10 else "progdfs.iters>10")
         if n > 1:
             ctx.note_nontrivial(c)
-        # oracle: no schedule repeated (exactly once)
+        key = (w[4], w[5])
+        bad = None
         if len(set(scheds)) != len(scheds):
+            bad = "check_dfs executed the same schedule twice"
+        # every execution uses the same fixed random-data stream: the draw lists are prefixes of one another
+        if not bad and w[3] == "1":
+            longest = max(draws, key=len) if draws else ""
+            for d in draws:
+                if not (longest == d or longest.startswith(d + ".") or d == ""):
+                    bad = "two executions of one DFS run saw different random-data streams"
+                    break
+        if w[1] == "none" and w[2] == "-" and not line.startswith("N=fail"):
+            unb[key] = scheds
+        if bad:
             nfail += 1
-            ctx.violation({"layer": "prog", "cases": [c], "implementation_answer": line[:3000], "why": "check_dfs executed the same schedule twice"})
+            if nfail <= 6:
+                ctx.violation({"layer": "prog", "cases": [c], "implementation_answer": line[:3000], "model_answer": pmo[k][:3000], "why": bad})
+    # bound oracles against the implementation's own unbounded enumeration
+    for k, c in enumerate(pcases):
+        w = c.split(" ")
+        key = (w[4], w[5])
+        if key not in unb or pio[k].startswith("N=fail"):
+            continue
+        full = unb[key]
+        items = [x for x in pio[k].split(" | ") if "S=" in x]
+        scheds = [x.split(":R=")[0].split("S=")[1] for x in items]
+        bad = None
+        if w[1].startswith("cont:") and w[2] == "-":
+            n = int(w[1][5:])
+            want = []
+            for s_ in full:
+                pre = ",".join(s_.split(",")[:n])
+                if pre not in want:
+                    want.append(pre)
+            if scheds != want:
+                bad = "ContinueAfter(%d): executed choice prefixes %s, the distinct prefixes of that length are %s" % (n, scheds[:20], want[:20])
+        elif w[1] == "none" and w[2] != "-":
+            mi = int(w[2])
+            if scheds != full[:mi]:
+                bad = "iteration bound %d: executed %d schedules, expected the first %d of %d" % (mi, len(scheds), min(mi, len(full)), len(full))
+        if bad:
+            nfail += 1
+            if nfail <= 6:
+                ctx.violation({"layer": "prog", "cases": [c, "progdfs none - 0 %s %s" % key], "implementation_answer": pio[k][:3000], "model_answer": pmo[k][:3000], "why": bad})
     ctx.disagreements_checked = len(mism) + len(pmism)
     if mism or pmism:
         ex = [{"case": cases[i], "model": mo[i][:500], "impl": io[i][:500]} for i in mism[:3]] + [{"case": pcases[i], "model": pmo[i][:500], "impl": pio[i][:500]} for i in pmism[:3]]
@@ -126,5 +214,5 @@ def run(tier):
                        "with iteration bounds around the leaf count and step bounds around the depth; expected paths computed independently (leaves / firstn / truncate); "
                        "plus small programs under Runner+DfsScheduler vs model engine+model DFS. non-trivial = more than one leaf / more than one execution")
     ctx.sample({"case": cases[1], "expected": expect[1][:300]})
-    ctx.sample({"case": pcases[0], "impl": pio[0][:300]})
+    ctx.sample({"case": pcases[1], "impl": pio[1][:300]})
     return ctx.finish()
